@@ -22,6 +22,14 @@ def obligations(tier):
         for pj in range(k - 1):
           obs.append(Ob(id=f'spline_predict/k{k}/piece{pj}', harness='C19/spline.c', tus=T, defs={'HP_K': k, 'HP_WHICH': 1, 'HP_LINE': 0, 'HP_PJ': pj}, engine='real', unwind=k + 4, timeout=to,
                         clause='evaluation picks the right piece at any scale of x', stubs=R, real={'nomissing': False}))
+    import itertools
+    for k in ((4,) if not th else (4, 5)):      # >= 4 knots: with 3 knots the search loop has a single candidate piece
+        codes = list(range(2 * k - 1))           # knots and midpoints
+        orders = [tuple(reversed(codes)), tuple(codes), tuple(codes[1::2] + codes[0::2]), tuple(codes[2:] + codes[:2])]
+        if th: orders += list(itertools.islice(itertools.permutations(codes), 0, 120, 7))
+        for oi, od in enumerate(dict.fromkeys(orders)):
+            obs.append(Ob(id=f'spline_predict_order/k{k}/order{"".join(map(str, od))}', harness='C19/spline.c', tus=T, defs={'HP_K': k, 'HP_WHICH': 2, 'HP_LINE': 0, 'HP_QORDER': ','.join(map(str, od))}, engine='real', unwind=2 * k + 4, timeout=to,
+                          clause='evaluation is a pure function of x (any query order in one call)', stubs=R, real={'nomissing': False}))
     for n in (2, 3, 4, 5):
         obs.append(Ob(id=f'area/n{n}', harness='C15/area.c', tus=T, defs={'HP_N': n}, engine='real', unwind=8, timeout=to, clause='trapezoid area exact and additive', stubs=R, real={'nomissing': True}))
     for (d, it) in ([(1, 1), (1, 2), (2, 1)] if not th else [(1, 1), (1, 2), (1, 3), (2, 1), (2, 2)]):
